@@ -555,6 +555,44 @@ func execC16(x *X) {
 				x.Violate("refused-unexpectedly:"+firstWords(lerr.Error(), 4), "correction of %s with type %q and options %v was refused although the published definitions allow it: %v\n  history: %s", d.Name, o.typ, op.L, lerr, H0)
 				return
 			}
+			if lerr == nil && !o.raw && len(o.stamps) == 0 {
+				// A caller that keeps its options in one bill.CorrectionOptions value and uses it
+				// again: the value must come back unchanged, and the same request must give the
+				// same correction the second time.
+				co := &bill.CorrectionOptions{Type: cbc.Key(o.typ), Reason: o.reason, Series: cbc.Code(o.series), CopyTax: o.copyTax}
+				if len(o.ext) > 0 {
+					co.Ext = tax.Extensions{}
+					for _, k := range SortedKeys(o.ext) {
+						co.Ext[cbc.Key(k)] = cbc.Code(o.ext[k])
+					}
+				}
+				if o.date != "" {
+					if dt, err := parseDate(o.date); err == nil {
+						co.IssueDate = &dt
+					}
+				}
+				optsBefore := Marshal(co)
+				var r1, r2 *gobl.Envelope
+				var e1, e2 error
+				if p := safely(func() {
+					x.Entropy(op.ID)
+					r1, e1 = src.Correct(bill.WithOptions(co))
+					x.Entropy(op.ID)
+					r2, e2 = src.Correct(bill.WithOptions(co))
+				}); p == "" {
+					x.Probe("options-value-used-twice")
+					if after := Marshal(co); !bytes.Equal(optsBefore, after) {
+						x.Violate("options-changed:"+GDiff(optsBefore, after), "Envelope.Correct changed the caller's CorrectionOptions value; %s\n  history: %s", DiffDetail(optsBefore, after), H0)
+					}
+					if (e1 == nil) != (e2 == nil) {
+						x.Violate("same-options-twice:verdict", "the same correction requested twice with one options value: first %v, then %v\n  history: %s", e1, e2, H0)
+					} else if e1 == nil {
+						if a, b := normaliseResult(Marshal(r1)), normaliseResult(Marshal(r2)); a != b {
+							x.Violate("same-options-twice:"+GDiff([]byte(a), []byte(b)), "the same correction requested twice with one options value gives different documents; %s\n  history: %s", DiffDetail([]byte(a), []byte(b)), H0)
+						}
+					}
+				}
+			}
 			if lerr == nil {
 				x.R.Nontrivial = true
 				if signedStamped {
